@@ -258,7 +258,25 @@ class _Exec(_cf.ThreadPoolExecutor):
                 return fn(*a, **k)
             finally:
                 s.leave(label)
-        return super().submit(wrapped, *args, **kw)
+        f = super().submit(wrapped, *args, **kw)
+        # however the tool waits for its work items (as_completed, wait, Future.result, leaving the executor's with-block): the moment
+        # it starts waiting is the moment everything has been handed over
+        real_result, real_exception = f.result, f.exception
+
+        def result(timeout=None):
+            s.signal_all_submitted()
+            return real_result(timeout)
+
+        def exception(timeout=None):
+            s.signal_all_submitted()
+            return real_exception(timeout)
+        f.result, f.exception = result, exception
+        return f
+
+    def shutdown(self, wait=True, **kw):
+        if self._sched is not None and wait:
+            self._sched.signal_all_submitted()
+        return super().shutdown(wait=wait, **kw)
 
 
 def _as_completed(fs, timeout=None):
@@ -279,7 +297,14 @@ class _Facade:
 
 import concurrent as _concurrent  # noqa: E402
 
-futures_facade = _Facade(_cf, ThreadPoolExecutor=_Exec, as_completed=_as_completed)
+def _wait(fs, timeout=None, return_when=_cf.ALL_COMPLETED):
+    w = vnet.current()
+    if w is not None and w.sched is not None:
+        w.sched.signal_all_submitted()
+    return _cf.wait(fs, timeout, return_when)
+
+
+futures_facade = _Facade(_cf, ThreadPoolExecutor=_Exec, as_completed=_as_completed, wait=_wait)
 concurrent_facade = _Facade(_concurrent, futures=futures_facade)
 
 
